@@ -48,7 +48,7 @@ var fnWhitelist = map[string][]string{
 		"Info.Validate", "Export.Validate", "isContainedIn", "Exports.Validate", "Exports.HasExportContainingSubject", "Mapping.Validate",
 		"CreateValidationResults", "ResponsePermission.Validate", "Permissions.Validate",
 		"OperatorLimits.IsEmpty", "OperatorLimits.Validate", "ExternalAuthorization.Validate",
-		"UserScope.Validate", "SigningKeys.Validate", "Account.Validate", "AccountClaims.Validate", "GenericClaims.Validate", "AuthorizationRequestClaims.Validate", "AuthorizationResponseClaims.Validate", "TimeRange.Validate", "Limits.Validate", "User.Validate", "UserClaims.Validate", "ParseServerVersion", "Operator.validateAccountServerURL", "ValidateOperatorServiceURL", "Operator.validateOperatorServiceURLs", "Operator.Validate", "OperatorClaims.Validate", "OperatorClaims.ExpectedPrefixes", "AccountClaims.ExpectedPrefixes", "UserClaims.ExpectedPrefixes", "ActivationClaims.ExpectedPrefixes", "AuthorizationRequestClaims.ExpectedPrefixes", "AuthorizationResponseClaims.ExpectedPrefixes", "GenericClaims.ExpectedPrefixes", "v1OperatorClaims.migrateV1", "v1UserClaims.migrateV1", "v1ActivationClaims.migrateV1", "SigningKeys.Add", "v1AccountClaims.migrateV1", "v1OperatorClaims.Migrate", "v1UserClaims.Migrate", "v1ActivationClaims.Migrate", "v1AccountClaims.Migrate", "loadOperator", "loadAccount", "loadUser", "loadActivation", "loadAuthorizationRequest", "loadAuthorizationResponse", "loadClaims", "ClaimsData.verify", "parseHeaders", "Decode", "UserClaims.Encode", "ActivationClaims.Encode", "OperatorClaims.Encode", "AccountClaims.Encode", "GenericClaims.Encode", "AuthorizationRequestClaims.Encode", "AuthorizationResponseClaims.Encode", "OperatorClaims.updateVersion", "AccountClaims.updateVersion", "UserClaims.updateVersion", "ActivationClaims.updateVersion", "AuthorizationRequestClaims.updateVersion", "AuthorizationResponseClaims.updateVersion", "DecodeOperatorClaims", "DecodeAccountClaims", "DecodeUserClaims", "DecodeAuthorizationRequestClaims", "DecodeAuthorizationResponseClaims", "UserScope.ValidateScopedSigner", "NewUserClaims", "UserClaims.SetScoped", "UserScope.SigningKey", "SigningKeys.AddScopedSigner", "SigningKeys.GetScope", "SigningKeys.Remove", "SigningKeys.Keys", "DecodeGeneric", "IssueUserJWT", "Exports.Len", "Exports.Less", "Imports.Len", "Imports.Less",
+		"UserScope.Validate", "SigningKeys.Validate", "Account.Validate", "AccountClaims.Validate", "GenericClaims.Validate", "AuthorizationRequestClaims.Validate", "AuthorizationResponseClaims.Validate", "TimeRange.Validate", "Limits.Validate", "User.Validate", "UserClaims.Validate", "ParseServerVersion", "Operator.validateAccountServerURL", "ValidateOperatorServiceURL", "Operator.validateOperatorServiceURLs", "Operator.Validate", "OperatorClaims.Validate", "OperatorClaims.ExpectedPrefixes", "AccountClaims.ExpectedPrefixes", "UserClaims.ExpectedPrefixes", "ActivationClaims.ExpectedPrefixes", "AuthorizationRequestClaims.ExpectedPrefixes", "AuthorizationResponseClaims.ExpectedPrefixes", "GenericClaims.ExpectedPrefixes", "v1OperatorClaims.migrateV1", "v1UserClaims.migrateV1", "v1ActivationClaims.migrateV1", "SigningKeys.Add", "v1AccountClaims.migrateV1", "v1OperatorClaims.Migrate", "v1UserClaims.Migrate", "v1ActivationClaims.Migrate", "v1AccountClaims.Migrate", "loadOperator", "loadAccount", "loadUser", "loadActivation", "loadAuthorizationRequest", "loadAuthorizationResponse", "loadClaims", "ClaimsData.verify", "parseHeaders", "Decode", "UserClaims.Encode", "ActivationClaims.Encode", "OperatorClaims.Encode", "AccountClaims.Encode", "GenericClaims.Encode", "AuthorizationRequestClaims.Encode", "AuthorizationResponseClaims.Encode", "OperatorClaims.updateVersion", "AccountClaims.updateVersion", "UserClaims.updateVersion", "ActivationClaims.updateVersion", "AuthorizationRequestClaims.updateVersion", "AuthorizationResponseClaims.updateVersion", "DecodeOperatorClaims", "DecodeAccountClaims", "DecodeUserClaims", "DecodeAuthorizationRequestClaims", "DecodeAuthorizationResponseClaims", "UserScope.ValidateScopedSigner", "NewUserClaims", "UserClaims.SetScoped", "UserScope.SigningKey", "SigningKeys.AddScopedSigner", "SigningKeys.GetScope", "SigningKeys.Remove", "SigningKeys.Keys", "DecodeGeneric", "IssueUserJWT", "Exports.Len", "Exports.Less", "Imports.Len", "Imports.Less", "AccountClaims.ClaimType", "ActivationClaims.ClaimType", "AuthorizationRequestClaims.ClaimType", "AuthorizationResponseClaims.ClaimType", "IsGenericClaimType", "OperatorClaims.ClaimType", "UserClaims.ClaimType", "NewAccountClaims", "NewActivationClaims", "NewAuthorizationRequestClaims", "NewAuthorizationResponseClaims", "NewGenericClaims", "NewOperatorClaims", "NewUserScope", "ExternalAuthorization.IsEnabled", "Account.HasExternalAuthorization", "Account.EnableExternalAuthorization", "OperatorLimits.IsJSEnabled", "AccountLimits.IsUnlimited", "OperatorLimits.IsUnlimited", "UserClaims.IsBearerToken", "AccountClaims.GetTags", "OperatorClaims.GetTags", "UserClaims.GetTags", "ValidationResults.Errors", "ValidationResults.Warnings", "ExportType.String", "ScopeType.String", "Exports.Add", "Imports.Add", "Account.AddMapping", "ValidationIssue.Error",
 	},
 	"V1": {
 		"Subject.HasWildCards", "Subject.IsContainedIn", "cleanSubject",
@@ -208,6 +208,12 @@ func terminates(s ast.Stmt) bool {
 			cc := cl.(*ast.CaseClause)
 			if cc.List == nil {
 				hasDefault = true
+			}
+			if len(cc.Body) == 1 {
+				// a clause that only falls through terminates when the clause it falls into does (checked there)
+				if br, ok := cc.Body[0].(*ast.BranchStmt); ok && br.Tok == token.FALLTHROUGH {
+					continue
+				}
 			}
 			if len(cc.Body) == 0 || !terminates(cc.Body[len(cc.Body)-1]) {
 				return false
@@ -2227,13 +2233,27 @@ func (c *fnCtx) switchStmt(b *block, x *ast.SwitchStmt) {
 	if x.Init != nil {
 		c.stmt(b, x.Init)
 	}
-	// no break/fallthrough inside
+	// a clause whose whole body is `fallthrough` lends its labels to the next (non-default) clause; no other
+	// break/fallthrough inside
+	soleFall := map[*ast.CaseClause]bool{}
+	for i, cl := range x.Body.List {
+		cc := cl.(*ast.CaseClause)
+		if len(cc.Body) == 1 && cc.List != nil && i+1 < len(x.Body.List) {
+			if br, ok := cc.Body[0].(*ast.BranchStmt); ok && br.Tok == token.FALLTHROUGH && x.Body.List[i+1].(*ast.CaseClause).List != nil {
+				soleFall[cc] = true
+			}
+		}
+	}
 	ast.Inspect(x.Body, func(n ast.Node) bool {
+		if cc, ok := n.(*ast.CaseClause); ok && soleFall[cc] {
+			return false
+		}
 		if br, ok := n.(*ast.BranchStmt); ok && (br.Tok == token.BREAK || br.Tok == token.FALLTHROUGH) {
 			unsup("break/fallthrough in switch")
 		}
 		return true
 	})
+	var carried []ast.Expr
 	tag := ""
 	if x.Tag != nil {
 		c.tmpN++
@@ -2248,8 +2268,14 @@ func (c *fnCtx) switchStmt(b *block, x *ast.SwitchStmt) {
 			def = cc
 			continue
 		}
+		if soleFall[cc] {
+			carried = append(carried, cc.List...)
+			continue
+		}
 		var conds []string
-		for _, e := range cc.List {
+		labels := append(carried, cc.List...)
+		carried = nil
+		for _, e := range labels {
 			v := c.expr(e)
 			if v.m {
 				unsup("partial case expression")
